@@ -12,48 +12,56 @@ type AC = GenericConnection<role::Any, u16>;
 type E = GenericEvent<u16>;
 type Ev = Vec<GenericEvent<u16>>;
 
-// ------------------------------------------------------------------ event predicates (by reference)
-fn is_send(e: &E) -> bool {
-    matches!(e, GenericEvent::RequestSendPacket { .. })
+// ------------------------------------------------------------------ event summaries and predicates
+use crate::verif_harness::evsum::*;
+
+/// summary of the i-th event: stored by the event-list model under the verification build,
+/// computed from the real Vec<GenericEvent> under replay
+#[cfg(feature = "verif-models")]
+fn sm(ev: &Ev, i: usize) -> EvSum {
+    ev.sum(i)
 }
-fn is_close(e: &E) -> bool {
-    matches!(e, GenericEvent::RequestClose)
+#[cfg(not(feature = "verif-models"))]
+fn sm(ev: &Ev, i: usize) -> EvSum {
+    summarize_event(&sm(&ev, i))
 }
-fn is_recv(e: &E) -> bool {
-    matches!(e, GenericEvent::NotifyPacketReceived(_))
+
+fn is_send(e: &EvSum) -> bool {
+    e.kind == K_SEND
 }
-fn is_any_err(e: &E) -> bool {
-    matches!(e, GenericEvent::NotifyError(_))
+fn is_close(e: &EvSum) -> bool {
+    e.kind == K_CLOSE
 }
-fn is_err(e: &E, k: MqttError) -> bool {
-    match e {
-        GenericEvent::NotifyError(x) => *x == k,
-        _ => false,
-    }
+fn is_recv(e: &EvSum) -> bool {
+    e.kind == K_RECV
 }
-fn is_reset(e: &E, k: TimerKind, ms: u64) -> bool {
-    match e {
-        GenericEvent::RequestTimerReset { kind, duration_ms } => *kind == k && *duration_ms == ms,
-        _ => false,
-    }
+fn is_any_err(e: &EvSum) -> bool {
+    e.kind == K_ERR
 }
-fn is_cancel(e: &E, k: TimerKind) -> bool {
-    match e {
-        GenericEvent::RequestTimerCancel(kind) => *kind == k,
-        _ => false,
-    }
+fn is_err(e: &EvSum, k: MqttError) -> bool {
+    e.kind == K_ERR && e.err == k as u16
 }
-fn is_released(e: &E, id: u16) -> bool {
-    match e {
-        GenericEvent::NotifyPacketIdReleased(x) => *x == id,
-        _ => false,
-    }
+fn is_reset(e: &EvSum, k: TimerKind, ms: u64) -> bool {
+    e.kind == K_RESET && e.timer == timer_u8(k) && e.ms == ms
 }
-fn send_has_release(e: &E, id: Option<u16>) -> bool {
-    match e {
-        GenericEvent::RequestSendPacket { release_packet_id_if_send_error, .. } => *release_packet_id_if_send_error == id,
-        _ => false,
-    }
+fn is_cancel(e: &EvSum, k: TimerKind) -> bool {
+    e.kind == K_CANCEL && e.timer == timer_u8(k)
+}
+fn is_any_cancel(e: &EvSum) -> bool {
+    e.kind == K_CANCEL
+}
+fn is_released(e: &EvSum, id: u16) -> bool {
+    e.kind == K_RELEASED && e.id == id as u32
+}
+fn is_any_released(e: &EvSum) -> bool {
+    e.kind == K_RELEASED
+}
+fn send_has_release(e: &EvSum, id: Option<u16>) -> bool {
+    e.kind == K_SEND
+        && match id {
+            Some(x) => e.rel_some && e.rel == x as u32,
+            None => !e.rel_some,
+        }
 }
 
 #[derive(Clone, Copy)]
@@ -75,36 +83,31 @@ fn monitor<R: RoleType>(pre: Tm, ev: &Ev, post: &GenericConnection<R, u16>) {
     let n = ev.len();
     assert!(n <= 8, "[C05] bounded event list");
     while i < n {
-        match &ev[i] {
-            GenericEvent::RequestSendPacket { .. } => {
-                assert!(!seen_close, "[C19] no close request before a send request in the same list");
+        let e = sm(ev, i);
+        if e.kind == K_SEND {
+            assert!(!seen_close, "[C19] no close request before a send request in the same list");
+        } else if e.kind == K_CLOSE {
+            seen_close = true;
+        } else if e.kind == K_RESET {
+            assert!(e.ms > 0, "[C15] a timer is never armed with a zero duration");
+            if e.timer == 0 {
+                t.send = true;
+            } else if e.timer == 1 {
+                t.recv = true;
+            } else {
+                t.resp = true;
             }
-            GenericEvent::RequestClose => {
-                seen_close = true;
+        } else if e.kind == K_CANCEL {
+            if e.timer == 0 {
+                assert!(t.send, "[C15] cancel only for an armed timer (pingreq_send)");
+                t.send = false;
+            } else if e.timer == 1 {
+                assert!(t.recv, "[C15] cancel only for an armed timer (pingreq_recv)");
+                t.recv = false;
+            } else {
+                assert!(t.resp, "[C15] cancel only for an armed timer (pingresp_recv)");
+                t.resp = false;
             }
-            GenericEvent::RequestTimerReset { kind, duration_ms } => {
-                assert!(*duration_ms > 0, "[C15] a timer is never armed with a zero duration");
-                match kind {
-                    TimerKind::PingreqSend => t.send = true,
-                    TimerKind::PingreqRecv => t.recv = true,
-                    TimerKind::PingrespRecv => t.resp = true,
-                }
-            }
-            GenericEvent::RequestTimerCancel(kind) => match kind {
-                TimerKind::PingreqSend => {
-                    assert!(t.send, "[C15] cancel only for an armed timer (pingreq_send)");
-                    t.send = false;
-                }
-                TimerKind::PingreqRecv => {
-                    assert!(t.recv, "[C15] cancel only for an armed timer (pingreq_recv)");
-                    t.recv = false;
-                }
-                TimerKind::PingrespRecv => {
-                    assert!(t.resp, "[C15] cancel only for an armed timer (pingresp_recv)");
-                    t.resp = false;
-                }
-            },
-            _ => {}
         }
         i += 1;
     }
@@ -117,11 +120,11 @@ fn monitor<R: RoleType>(pre: Tm, ev: &Ev, post: &GenericConnection<R, u16>) {
     }
 }
 
-fn count<F: Fn(&E) -> bool>(ev: &Ev, f: F) -> usize {
+fn count<F: Fn(&EvSum) -> bool>(ev: &Ev, f: F) -> usize {
     let mut k = 0;
     let mut i = 0;
     while i < ev.len() {
-        if f(&ev[i]) {
+        if f(&sm(ev, i)) {
             k += 1;
         }
         i += 1;
@@ -195,14 +198,14 @@ fn st_send_pingreq_v311_client() {
     let ev = c.process_send_v3_1_1_pingreq(v3_1_1::Pingreq::new());
     monitor(pre, &ev, &c);
     assert!(ev.len() == 1 + (rt != 0) as usize + (ms != 0) as usize, "[C15] PINGREQ: exactly the send and the configured timer requests");
-    assert!(is_send(&ev[0]), "[C11] PINGREQ passed to the transport when connected");
+    assert!(is_send(&sm(&ev, 0)), "[C11] PINGREQ passed to the transport when connected");
     if rt != 0 {
-        assert!(is_reset(&ev[1], TimerKind::PingrespRecv, rt), "[C15] sent PINGREQ arms the response timer when configured");
+        assert!(is_reset(&sm(&ev, 1), TimerKind::PingrespRecv, rt), "[C15] sent PINGREQ arms the response timer when configured");
     } else {
         assert!(c.pingresp_recv_set == pre.resp, "[C15] response timer untouched when not configured");
     }
     if ms != 0 {
-        assert!(is_reset(&ev[ev.len() - 1], TimerKind::PingreqSend, ms), "[C15] client re-arms the PINGREQ timer with the interval chosen by priority");
+        assert!(is_reset(&sm(&ev, ev.len() - 1), TimerKind::PingreqSend, ms), "[C15] client re-arms the PINGREQ timer with the interval chosen by priority");
     }
     core::mem::forget(ev);
     core::mem::forget(c);
@@ -219,12 +222,12 @@ fn st_send_pingreq_v5_client() {
     let ev = c.process_send_v5_0_pingreq(v5_0::Pingreq::new());
     monitor(pre, &ev, &c);
     assert!(ev.len() == 1 + (rt != 0) as usize + (ms != 0) as usize, "[C15] PINGREQ: exactly the send and the configured timer requests");
-    assert!(is_send(&ev[0]), "[C11] PINGREQ passed to the transport when connected");
+    assert!(is_send(&sm(&ev, 0)), "[C11] PINGREQ passed to the transport when connected");
     if rt != 0 {
-        assert!(is_reset(&ev[1], TimerKind::PingrespRecv, rt), "[C15] sent PINGREQ arms the response timer when configured");
+        assert!(is_reset(&sm(&ev, 1), TimerKind::PingrespRecv, rt), "[C15] sent PINGREQ arms the response timer when configured");
     }
     if ms != 0 {
-        assert!(is_reset(&ev[ev.len() - 1], TimerKind::PingreqSend, ms), "[C15] client re-arms the PINGREQ timer with the interval chosen by priority");
+        assert!(is_reset(&sm(&ev, ev.len() - 1), TimerKind::PingreqSend, ms), "[C15] client re-arms the PINGREQ timer with the interval chosen by priority");
     }
     core::mem::forget(ev);
     core::mem::forget(c);
@@ -242,7 +245,7 @@ fn st_send_disconnect_v311_client() {
     monitor(pre, &ev, &c);
     let n = ev.len();
     assert!(n == 2 + pre.send as usize + pre.resp as usize, "[C15] DISCONNECT: one cancel per armed timer, the packet, the close");
-    assert!(is_send(&ev[n - 2]) && is_close(&ev[n - 1]), "[C19] DISCONNECT is followed by a close request in the same list");
+    assert!(is_send(&sm(&ev, n - 2)) && is_close(&sm(&ev, n - 1)), "[C19] DISCONNECT is followed by a close request in the same list");
     assert!(c.status == ConnectionStatus::Disconnected, "[C11] status disconnected after DISCONNECT");
     core::mem::forget(ev);
     core::mem::forget(c);
@@ -263,7 +266,7 @@ fn st_send_disconnect_v5_server() {
     monitor(pre, &ev, &c);
     let n = ev.len();
     assert!(n == 2 + pre.recv as usize, "[C15] DISCONNECT: one cancel per armed timer, the packet, the close");
-    assert!(is_send(&ev[n - 2]) && is_close(&ev[n - 1]), "[C19] DISCONNECT is followed by a close request in the same list");
+    assert!(is_send(&sm(&ev, n - 2)) && is_close(&sm(&ev, n - 1)), "[C19] DISCONNECT is followed by a close request in the same list");
     assert!(c.status == ConnectionStatus::Disconnected, "[C11] status disconnected after DISCONNECT");
     core::mem::forget(ev);
     core::mem::forget(c);
@@ -293,7 +296,7 @@ fn st_timer_fired_v311_client() {
     let ev = c.notify_timer_fired(kind);
     monitor(pre, &ev, &c);
     if k == 0 {
-        assert!(ev.len() >= 1 && is_send(&ev[0]), "[C15] PINGREQ timer expiry sends PINGREQ");
+        assert!(ev.len() >= 1 && is_send(&sm(&ev, 0)), "[C15] PINGREQ timer expiry sends PINGREQ");
     } else {
         assert!(count(&ev, is_close) == 1, "[C19] keep-alive timeout on an established connection results in a close request");
     }
@@ -304,6 +307,7 @@ fn st_timer_fired_v311_client() {
 #[kani::proof]
 #[kani::unwind(7)]
 fn st_timer_fired_v5_client_pingresp() {
+    set_detail(true);
     let mut c = fam_client_connected(Version::V5_0);
     kani::assume(c.pingresp_recv_set);
     let mut pre = tm_of(&c);
@@ -311,13 +315,9 @@ fn st_timer_fired_v5_client_pingresp() {
     let ev = c.notify_timer_fired(TimerKind::PingrespRecv);
     monitor(pre, &ev, &c);
     let n = ev.len();
-    assert!(n >= 2 && is_send(&ev[n - 2]) && is_close(&ev[n - 1]), "[C15,C19] v5.0 PINGRESP timeout: DISCONNECT then close");
-    match &ev[n - 2] {
-        GenericEvent::RequestSendPacket { packet: GenericPacket::V5_0Disconnect(d), .. } => {
-            assert!(d.reason_code() == Some(DisconnectReasonCode::KeepAliveTimeout), "[C15] DISCONNECT carries Keep Alive timeout");
-        }
-        _ => assert!(false, "[C15] v5.0 timeout sends DISCONNECT"),
-    }
+    assert!(n >= 2 && is_send(&sm(&ev, n - 2)) && is_close(&sm(&ev, n - 1)), "[C15,C19] v5.0 PINGRESP timeout: DISCONNECT then close");
+    let d = sm(&ev, n - 2);
+    assert!(d.pkt.ptype == 14 && d.pkt.v5 && d.pkt.rc == 0x8D, "[C15] v5.0 timeout sends DISCONNECT with reason Keep Alive timeout");
     core::mem::forget(ev);
     core::mem::forget(c);
 }
@@ -335,7 +335,7 @@ fn st_timer_fired_server_pingreq_recv() {
     let n = ev.len();
     assert!(count(&ev, is_close) == 1, "[C19] keep-alive timeout on an established connection results in a close request");
     if v5 {
-        assert!(n == 2 && is_send(&ev[0]) && is_close(&ev[1]), "[C15] v5.0 keep-alive timeout: DISCONNECT then close");
+        assert!(n == 2 && is_send(&sm(&ev, 0)) && is_close(&sm(&ev, 1)), "[C15] v5.0 keep-alive timeout: DISCONNECT then close");
     } else {
         assert!(n == 1, "[C15] v3.1.1 keep-alive timeout: close only");
     }
@@ -390,7 +390,7 @@ fn st_notify_closed_any() {
     monitor(pre, &ev, &c);
     assert!(c.status == ConnectionStatus::Disconnected, "[C10] closed");
     assert!(!c.pingreq_send_set && !c.pingreq_recv_set && !c.pingresp_recv_set, "[C15] after the transport is closed no timer remains armed");
-    assert!(count(&ev, |e| matches!(e, GenericEvent::RequestTimerCancel(_))) == pre.send as usize + pre.recv as usize + pre.resp as usize, "[C15] exactly the armed timers are cancelled on close");
+    assert!(count(&ev, is_any_cancel) == pre.send as usize + pre.recv as usize + pre.resp as usize, "[C15] exactly the armed timers are cancelled on close");
     assert!(c.topic_alias_send.is_none() && c.topic_alias_recv.is_none(), "[C13] alias bindings do not survive the connection");
     assert!(c.maximum_packet_size_send == MQTT_PACKET_SIZE_NO_LIMIT && c.maximum_packet_size_recv == MQTT_PACKET_SIZE_NO_LIMIT, "[C10] size limits reset on close");
     // identifiers
@@ -421,7 +421,530 @@ fn st_recv_pingresp_client() {
     let ev = if v5 { c.process_recv_v5_0_pingresp(raw) } else { c.process_recv_v3_1_1_pingresp(raw) };
     monitor(pre, &ev, &c);
     assert!(!c.pingresp_recv_set, "[C15] PINGRESP cancels the response timer");
-    assert!(ev.len() == 1 + pre.resp as usize && is_recv(&ev[ev.len() - 1]), "[C15] PINGRESP: cancel iff armed, then delivery");
+    assert!(ev.len() == 1 + pre.resp as usize && is_recv(&sm(&ev, ev.len() - 1)), "[C15] PINGRESP: cancel iff armed, then delivery");
     core::mem::forget(ev);
     core::mem::forget(c);
 }
+
+// =================================================================== B. identifiers, QoS exchanges, store
+fn mk_pub311(qos: u8, id: u16, dup: bool) -> v3_1_1::GenericPublish<u16> {
+    let body: [u8; 6] = [0, 1, b't', (id >> 8) as u8, id as u8, 0x55];
+    let arc: crate::mqtt::common::Arc<[u8]> = crate::mqtt::common::Arc::from(&body[..]);
+    v3_1_1::GenericPublish::<u16>::parse((qos << 1) | ((dup as u8) << 3), arc).unwrap().0
+}
+fn mk_pub5(qos: u8, id: u16, dup: bool) -> v5_0::GenericPublish<u16> {
+    let body: [u8; 7] = [0, 1, b't', (id >> 8) as u8, id as u8, 0, 0x55];
+    let arc: crate::mqtt::common::Arc<[u8]> = crate::mqtt::common::Arc::from(&body[..]);
+    v5_0::GenericPublish::<u16>::parse((qos << 1) | ((dup as u8) << 3), arc).unwrap().0
+}
+
+/// session with QoS1 id `i` awaiting PUBACK and QoS2 id `j` awaiting PUBREC (both stored when persistent)
+fn fam_inflight<R: RoleType>(c: &mut GenericConnection<R, u16>, i: u16, j: u16, persistent: bool) {
+    kani::assume(i != 0 && j != 0 && i != j);
+    c.need_store = persistent;
+    c.pid_man.register_id(i).unwrap();
+    c.pid_man.register_id(j).unwrap();
+    c.pid_puback.insert(i);
+    c.pid_pubrec.insert(j);
+    if persistent {
+        if c.protocol_version == Version::V5_0 {
+            c.store.add(mk_pub5(1, i, true).try_into().unwrap()).unwrap();
+            c.store.add(mk_pub5(2, j, true).try_into().unwrap()).unwrap();
+        } else {
+            c.store.add(mk_pub311(1, i, true).try_into().unwrap()).unwrap();
+            c.store.add(mk_pub311(2, j, true).try_into().unwrap()).unwrap();
+        }
+    }
+}
+
+// PUBACK received (v3.1.1 client, persistent session): exactly the matching exchange completes
+#[kani::proof]
+#[kani::unwind(7)]
+#[kani::stub(core::str::from_utf8, utf8_model)]
+fn st_recv_puback_v311_persistent() {
+    let mut c = fam_client_connected(Version::V3_1_1);
+    let i: u16 = kani::any();
+    let j: u16 = kani::any();
+    fam_inflight(&mut c, i, j, true);
+    let pre = tm_of(&c);
+    let r: u16 = kani::any();
+    kani::cover!(r == i, "matching PUBACK");
+    kani::cover!(r == j, "PUBACK for an id awaiting PUBREC (wrong kind)");
+    kani::cover!(r == 0, "PUBACK with id 0");
+    let raw = pbh::verif_raw(0x40, &[(r >> 8) as u8, r as u8]);
+    let ev = c.process_recv_v3_1_1_puback(raw);
+    monitor(pre, &ev, &c);
+    if r == i {
+        assert!(count(&ev, |e| is_released(e, i)) == 1 && !c.pid_man.is_used_id(i), "[C08] matching PUBACK releases the id exactly once");
+        assert!(!c.pid_puback.contains(&i) && !sth::has(&c.store, i), "[C06] matching PUBACK erases exactly the stored PUBLISH");
+        assert!(count(&ev, is_recv) == 1 && count(&ev, is_any_err) == 0, "[C05] matching PUBACK delivered");
+    } else {
+        assert!(count(&ev, is_any_err) == 1 && count(&ev, is_recv) == 0, "[C06] a PUBACK matching nothing in flight is reported as an error");
+        assert!(count(&ev, is_any_released) == 0, "[C08] no release for an unmatched acknowledgement");
+        assert!(c.pid_man.is_used_id(i) && c.pid_puback.contains(&i) && sth::has(&c.store, i), "[C06] unmatched PUBACK erases nothing");
+        assert!(count(&ev, is_close) == 1, "[C19] protocol error on v3.1.1 requests a close");
+    }
+    // the QoS2 exchange is never touched by a PUBACK
+    assert!(c.pid_man.is_used_id(j) && c.pid_pubrec.contains(&j) && sth::has(&c.store, j), "[C06] PUBACK never completes a QoS2 exchange");
+    assert!(sth::len(&c.store) == 1 + (r != i) as usize, "[C06] store size after PUBACK");
+    core::mem::forget(ev);
+    core::mem::forget(c);
+}
+
+// PUBACK received (v5.0 client, Receive Maximum M): counter arithmetic at full width
+#[kani::proof]
+#[kani::unwind(7)]
+#[kani::stub(core::str::from_utf8, utf8_model)]
+fn st_recv_puback_v5_flow() {
+    let mut c = fam_client_connected(Version::V5_0);
+    let i: u16 = kani::any();
+    let j: u16 = kani::any();
+    fam_inflight(&mut c, i, j, false);
+    let m: u16 = kani::any();
+    let cnt: u16 = kani::any();
+    // I3: the counter counts the incomplete exchanges of this connection (here: i and j), never above M
+    kani::assume(m >= 2 && cnt == 2);
+    c.publish_send_max = Some(m);
+    c.publish_send_count = cnt;
+    let pre = tm_of(&c);
+    let r: u16 = kani::any();
+    kani::cover!(r == i, "matching PUBACK");
+    kani::cover!(r != i, "unmatched PUBACK");
+    let raw = pbh::verif_raw(0x40, &[(r >> 8) as u8, r as u8]);
+    let ev = c.process_recv_v5_0_puback(raw);
+    monitor(pre, &ev, &c);
+    if r == i {
+        assert!(c.publish_send_count == cnt - 1, "[C12] a completed exchange frees one slot");
+        assert!(c.get_receive_maximum_vacancy_for_send() == Some(m - 1), "[C12] vacancy equals M minus incomplete exchanges");
+        assert!(count(&ev, |e| is_released(e, i)) == 1 && !c.pid_man.is_used_id(i), "[C08] matching PUBACK releases the id exactly once");
+        assert!(count(&ev, is_recv) == 1, "[C05] matching PUBACK delivered");
+    } else {
+        assert!(c.publish_send_count == cnt, "[C12] an unmatched PUBACK frees nothing");
+        assert!(c.pid_man.is_used_id(i) && c.pid_puback.contains(&i), "[C06] unmatched PUBACK erases nothing");
+        assert!(count(&ev, is_any_err) == 1 && count(&ev, is_recv) == 0, "[C06] a PUBACK matching nothing in flight is reported as an error");
+        let n = ev.len();
+        assert!(is_send(&sm(&ev, n - 3)) && is_close(&sm(&ev, n - 2)) && is_any_err(&sm(&ev, n - 1)), "[C19] v5.0 protocol error: DISCONNECT, close, error in that order");
+    }
+    assert!(c.pid_man.is_used_id(j) && c.pid_pubrec.contains(&j), "[C06] PUBACK never completes a QoS2 exchange");
+    core::mem::forget(ev);
+    core::mem::forget(c);
+}
+
+// PUBREC received (v5.0): success keeps the id and the slot (PUBREL follows), an error code ends the exchange
+#[kani::proof]
+#[kani::unwind(7)]
+#[kani::stub(core::str::from_utf8, utf8_model)]
+fn st_recv_pubrec_v5_flow() {
+    let mut c = fam_client_connected(Version::V5_0);
+    let i: u16 = kani::any();
+    let j: u16 = kani::any();
+    fam_inflight(&mut c, i, j, false);
+    let m: u16 = kani::any();
+    kani::assume(m >= 2);
+    c.publish_send_max = Some(m);
+    c.publish_send_count = 2;
+    c.auto_pub_response = kani::any();
+    let pre = tm_of(&c);
+    let r: u16 = kani::any();
+    let rc: u8 = kani::any();
+    kani::assume(PubrecReasonCode::try_from(rc).is_ok());
+    let failure = rc >= 0x80;
+    kani::cover!(r == j && failure, "PUBREC with an error code");
+    kani::cover!(r == j && !failure, "successful PUBREC");
+    kani::cover!(r == i, "PUBREC for an id awaiting PUBACK (wrong kind)");
+    let raw = pbh::verif_raw(0x50, &[(r >> 8) as u8, r as u8, rc]);
+    let ev = c.process_recv_v5_0_pubrec(raw);
+    monitor(pre, &ev, &c);
+    if r == j {
+        assert!(!c.pid_pubrec.contains(&j), "[C06] PUBREC ends the wait for PUBREC");
+        assert!(count(&ev, is_recv) == 1, "[C05] matching PUBREC delivered");
+        if failure {
+            assert!(c.publish_send_count == 1, "[C12] an error PUBREC frees the slot");
+            assert!(count(&ev, |e| is_released(e, j)) == 1 && !c.pid_man.is_used_id(j), "[C08] an error PUBREC releases the id exactly once");
+            assert!(count(&ev, is_send) == 0, "[C06] no PUBREL after an error PUBREC");
+        } else {
+            assert!(c.publish_send_count == 2, "[C12] a successful PUBREC keeps the slot until PUBCOMP");
+            assert!(c.pid_man.is_used_id(j) && count(&ev, is_any_released) == 0, "[C08] the id stays in use until PUBCOMP");
+            assert!(count(&ev, is_send) == c.auto_pub_response as usize, "[C06] PUBREL sent automatically iff enabled");
+            if c.auto_pub_response {
+                assert!(c.pid_pubcomp.contains(&j), "[C06] PUBREL sent: now waiting for PUBCOMP");
+            }
+        }
+    } else {
+        assert!(c.publish_send_count == 2 && c.pid_man.is_used_id(j) && c.pid_pubrec.contains(&j), "[C06] unmatched PUBREC changes nothing");
+        assert!(count(&ev, is_any_err) == 1 && count(&ev, is_recv) == 0, "[C06] a PUBREC matching nothing in flight is reported as an error");
+    }
+    assert!(c.pid_man.is_used_id(i) && c.pid_puback.contains(&i), "[C06] PUBREC never completes a QoS1 exchange");
+    core::mem::forget(ev);
+    core::mem::forget(c);
+}
+
+// PUBCOMP received (both versions): completes exactly the exchange waiting for it
+#[kani::proof]
+#[kani::unwind(7)]
+#[kani::stub(core::str::from_utf8, utf8_model)]
+fn st_recv_pubcomp_flow() {
+    let v5: bool = kani::any();
+    let mut c = fam_client_connected(v311_or_v5(v5));
+    let i: u16 = kani::any();
+    let k: u16 = kani::any();
+    kani::assume(i != 0 && k != 0 && i != k);
+    c.pid_man.register_id(i).unwrap();
+    c.pid_man.register_id(k).unwrap();
+    c.pid_puback.insert(i);
+    c.pid_pubcomp.insert(k);
+    let m: u16 = kani::any();
+    kani::assume(m >= 2);
+    if v5 {
+        c.publish_send_max = Some(m);
+        c.publish_send_count = 2;
+    }
+    let pre = tm_of(&c);
+    let r: u16 = kani::any();
+    kani::cover!(r == k, "matching PUBCOMP");
+    kani::cover!(r == i, "PUBCOMP for an id awaiting PUBACK");
+    let raw = pbh::verif_raw(0x70, &[(r >> 8) as u8, r as u8]);
+    let ev = if v5 { c.process_recv_v5_0_pubcomp(raw) } else { c.process_recv_v3_1_1_pubcomp(raw) };
+    monitor(pre, &ev, &c);
+    if r == k {
+        assert!(count(&ev, |e| is_released(e, k)) == 1 && !c.pid_man.is_used_id(k) && !c.pid_pubcomp.contains(&k), "[C08] PUBCOMP releases the id exactly once");
+        if v5 {
+            assert!(c.publish_send_count == 1 && c.get_receive_maximum_vacancy_for_send() == Some(m - 1), "[C12] PUBCOMP frees one slot");
+        }
+    } else {
+        assert!(c.pid_man.is_used_id(k) && c.pid_pubcomp.contains(&k), "[C06] unmatched PUBCOMP changes nothing");
+        assert!(count(&ev, is_any_err) == 1 && count(&ev, is_recv) == 0, "[C06] a PUBCOMP matching nothing in flight is reported as an error");
+        if v5 {
+            assert!(c.publish_send_count == 2, "[C12] unmatched PUBCOMP frees nothing");
+        }
+    }
+    assert!(c.pid_man.is_used_id(i) && c.pid_puback.contains(&i), "[C06] PUBCOMP never completes a QoS1 exchange");
+    core::mem::forget(ev);
+    core::mem::forget(c);
+}
+
+// QoS1 PUBLISH sent on a persistent v3.1.1 session: stored with DUP, id held, sent at once
+#[kani::proof]
+#[kani::unwind(7)]
+#[kani::stub(core::str::from_utf8, utf8_model)]
+fn st_send_publish_v311_q1_persistent() {
+    let mut c = fam_client_connected(Version::V3_1_1);
+    c.need_store = true;
+    let id: u16 = kani::any();
+    kani::assume(id != 0);
+    let registered: bool = kani::any();
+    if registered {
+        c.pid_man.register_id(id).unwrap();
+    }
+    let pre = tm_of(&c);
+    let ev = c.process_send_v3_1_1_publish(mk_pub311(1, id, false));
+    monitor(pre, &ev, &c);
+    if registered {
+        assert!(is_send(&sm(&ev, 0)) && send_has_release(&sm(&ev, 0), None), "[C06] accepted QoS1 PUBLISH is requested for sending at once");
+        assert!(c.pid_puback.contains(&id) && c.pid_man.is_used_id(id), "[C06] id held while waiting for PUBACK");
+        assert!(sth::len(&c.store) == 1 && sth::info(&c.store, id) == Some((1, true, false, false)), "[C06] stored copy: QoS1, DUP set, full topic");
+    } else {
+        assert!(ev.len() == 1 && is_err(&sm(&ev, 0), MqttError::PacketIdentifierInvalid), "[C08] an id that was not acquired/registered is refused");
+        assert!(sth::len(&c.store) == 0 && !c.pid_puback.contains(&id) && !c.pid_man.is_used_id(id), "[C11] refused send leaves no trace");
+    }
+    core::mem::forget(ev);
+    core::mem::forget(c);
+}
+
+// QoS1/2 PUBLISH sent on v5.0 against Receive Maximum M (not stored): refused exactly at the limit
+#[kani::proof]
+#[kani::unwind(7)]
+#[kani::stub(core::str::from_utf8, utf8_model)]
+fn st_send_publish_v5_flow() {
+    let mut c = fam_client_connected(Version::V5_0);
+    let id: u16 = kani::any();
+    kani::assume(id != 0);
+    c.pid_man.register_id(id).unwrap();
+    let m: u16 = kani::any();
+    let cnt: u16 = kani::any();
+    kani::assume(m >= 1 && cnt <= m);
+    c.publish_send_max = Some(m);
+    c.publish_send_count = cnt;
+    let q2: bool = kani::any();
+    let pre = tm_of(&c);
+    kani::cover!(cnt == m, "at the limit");
+    kani::cover!(cnt + 1 == m, "last free slot");
+    let ev = c.process_send_v5_0_publish(mk_pub5(if q2 { 2 } else { 1 }, id, false));
+    monitor(pre, &ev, &c);
+    if cnt == m {
+        assert!(is_err(&sm(&ev, 0), MqttError::ReceiveMaximumExceeded) && count(&ev, is_send) == 0, "[C12] a new QoS>0 PUBLISH is refused while M exchanges are incomplete");
+        assert!(count(&ev, |e| is_released(e, id)) == 1 && !c.pid_man.is_used_id(id), "[C08] a refused send releases its id exactly once");
+        assert!(c.publish_send_count == cnt && !c.pid_puback.contains(&id) && !c.pid_pubrec.contains(&id), "[C12] a refused send records nothing");
+        assert!(c.get_receive_maximum_vacancy_for_send() == Some(0), "[C12] vacancy saturates at zero");
+    } else {
+        assert!(c.publish_send_count == cnt + 1, "[C12] an accepted QoS>0 PUBLISH takes one slot");
+        assert!(c.get_receive_maximum_vacancy_for_send() == Some(m - cnt - 1), "[C12] vacancy equals M minus incomplete exchanges");
+        assert!(is_send(&sm(&ev, 0)) && send_has_release(&sm(&ev, 0), Some(id)), "[C08] non-stored PUBLISH carries its id for release on send error");
+        assert!(c.pid_man.is_used_id(id) && (if q2 { c.pid_pubrec.contains(&id) } else { c.pid_puback.contains(&id) }), "[C06] id held for the acknowledgement of its QoS");
+    }
+    core::mem::forget(ev);
+    core::mem::forget(c);
+}
+
+// =================================================================== C07 inbound QoS2
+#[kani::proof]
+#[kani::unwind(7)]
+#[kani::stub(core::str::from_utf8, utf8_model)]
+fn st_recv_publish_q2_v311() {
+    let mut c = fam_client_connected(Version::V3_1_1);
+    c.auto_pub_response = kani::any();
+    let h: u16 = kani::any();
+    kani::assume(h != 0);
+    c.qos2_publish_handled.insert(h);
+    let r: u16 = kani::any();
+    let dup: bool = kani::any();
+    let pre = tm_of(&c);
+    kani::cover!(r == h && dup, "retransmission of a handled PUBLISH");
+    kani::cover!(r != h && r != 0, "new QoS2 PUBLISH");
+    let body: [u8; 6] = [0, 1, b't', (r >> 8) as u8, r as u8, kani::any()];
+    let raw = pbh::verif_raw(0x34 | ((dup as u8) << 3), &body);
+    let ev = c.process_recv_v3_1_1_publish(raw);
+    monitor(pre, &ev, &c);
+    if r == 0 {
+        assert!(count(&ev, is_any_err) == 1 && count(&ev, is_recv) == 0, "[C04] QoS2 PUBLISH with packet identifier 0 is malformed");
+    } else {
+        assert!((count(&ev, is_recv) == 1) == (r != h), "[C07] a QoS2 PUBLISH is notified exactly when its id is not already handled");
+        assert!(count(&ev, is_recv) <= 1, "[C07] at most one notification");
+        assert!(c.qos2_publish_handled.contains(&r) && c.qos2_publish_handled.contains(&h), "[C07] id recorded as handled until PUBREL");
+        assert!((count(&ev, is_send) == 1) == (c.auto_pub_response || r == h), "[C07] PUBREC sent automatically or as answer to a duplicate");
+        assert!(count(&ev, is_any_err) == 0, "[C05] valid PUBLISH raises no error");
+    }
+    core::mem::forget(ev);
+    core::mem::forget(c);
+}
+
+#[kani::proof]
+#[kani::unwind(7)]
+#[kani::stub(core::str::from_utf8, utf8_model)]
+fn st_recv_pubrel_flow() {
+    let v5: bool = kani::any();
+    let mut c = fam_client_connected(v311_or_v5(v5));
+    c.auto_pub_response = kani::any();
+    let h: u16 = kani::any();
+    let g: u16 = kani::any();
+    kani::assume(h != 0 && g != 0 && g != h);
+    c.qos2_publish_handled.insert(h);
+    c.qos2_publish_handled.insert(g);
+    let r: u16 = kani::any();
+    let pre = tm_of(&c);
+    let raw = pbh::verif_raw(0x62, &[(r >> 8) as u8, r as u8]);
+    let ev = if v5 { c.process_recv_v5_0_pubrel(raw) } else { c.process_recv_v3_1_1_pubrel(raw) };
+    monitor(pre, &ev, &c);
+    if r != 0 {
+        assert!(!c.qos2_publish_handled.contains(&r), "[C07] after PUBREL the next PUBLISH with that id is a new message");
+        assert!(c.qos2_publish_handled.contains(&g) == (r != g) && c.qos2_publish_handled.contains(&h) == (r != h), "[C07] PUBREL forgets only its own id");
+        assert!(count(&ev, is_recv) == 1 && count(&ev, is_any_err) == 0, "[C05] PUBREL delivered");
+        assert!(count(&ev, is_send) == c.auto_pub_response as usize, "[C07] PUBCOMP sent automatically iff enabled");
+    } else {
+        assert!(count(&ev, is_any_err) == 1 && c.qos2_publish_handled.len() == 2, "[C04] PUBREL with id 0 is malformed and changes nothing");
+    }
+    core::mem::forget(ev);
+    core::mem::forget(c);
+}
+
+// first step of a second connection: clean-start CONNECT sent by a reused client vs a fresh client
+fn mk_connect_v311(ka: u16, clean: bool) -> v3_1_1::Connect {
+    let b: [u8; 13] = [0, 4, b'M', b'Q', b'T', b'T', 4, (clean as u8) << 1, (ka >> 8) as u8, ka as u8, 0, 1, b'c'];
+    v3_1_1::Connect::parse(&b[..]).unwrap().0
+}
+
+#[kani::proof]
+#[kani::unwind(7)]
+#[kani::stub(core::str::from_utf8, utf8_model)]
+fn st_reuse_client_v311_clean_connect() {
+    // reused object: disconnected after a persistent first connection, leftovers symbolic
+    let mut c = CC::new(Version::V3_1_1);
+    c.is_client = true;
+    c.need_store = kani::any();
+    c.publish_send_max = kani::any();
+    c.publish_recv_max = kani::any();
+    c.publish_send_count = kani::any();
+    c.pingreq_keep_alive_ms = kani::any();
+    c.pingreq_server_keep_alive_ms = kani::any();
+    let h: u16 = kani::any();
+    let i: u16 = kani::any();
+    kani::assume(h != 0 && i != 0);
+    // survivors of a persistent session
+    c.qos2_publish_handled.insert(h);
+    c.pid_man.register_id(i).unwrap();
+    c.pid_puback.insert(i);
+    let ka: u16 = kani::any();
+    let pre = tm_of(&c);
+    let ev = c.process_send_v3_1_1_connect(mk_connect_v311(ka, true));
+    monitor(pre, &ev, &c);
+    let mut f = CC::new(Version::V3_1_1);
+    let ev2 = f.process_send_v3_1_1_connect(mk_connect_v311(ka, true));
+    assert!(c.status == f.status && c.need_store == f.need_store && c.is_client == f.is_client, "[C10] status/persistence equal to a fresh object");
+    assert!(c.publish_send_max == f.publish_send_max && c.publish_recv_max == f.publish_recv_max && c.publish_send_count == f.publish_send_count, "[C10] receive maxima not inherited");
+    assert!(c.pingreq_keep_alive_ms == f.pingreq_keep_alive_ms && c.pingreq_server_keep_alive_ms == f.pingreq_server_keep_alive_ms, "[C10] keep-alive values not inherited");
+    assert!(c.pingreq_send_set == f.pingreq_send_set && ev.len() == ev2.len(), "[C10] same events as a fresh object");
+    assert!(!c.pid_man.is_used_id(i) && c.pid_puback.len() == 0, "[C10] a new session holds no in-flight id of the old one");
+    assert!(c.qos2_publish_handled.len() == 0, "[C07,C10] a new session forgets the QoS2 ids handled in the old one");
+    core::mem::forget(ev);
+    core::mem::forget(ev2);
+    core::mem::forget(c);
+    core::mem::forget(f);
+}
+
+// =================================================================== C17 receive gating
+/// MQTT rule: may the remote side of a connection with this role send packet type t in version v?
+/// (role Client => the remote is a server; role Server => the remote is a client; Any => either)
+fn spec_remote_may_send(role_client: bool, role_server: bool, v5: bool, t: u8) -> bool {
+    // packet types a server never receives from a client: CONNACK(2) SUBACK(9) UNSUBACK(11) PINGRESP(13)
+    // packet types a client never receives from a server: CONNECT(1) SUBSCRIBE(8) UNSUBSCRIBE(10) PINGREQ(12); v3.1.1 DISCONNECT(14)
+    // AUTH(15) exists only in v5.0
+    let from_server_ok = !(t == 1 || t == 8 || t == 10 || t == 12 || (t == 14 && !v5) || (t == 15 && !v5));
+    let from_client_ok = !(t == 2 || t == 9 || t == 11 || t == 13 || (t == 15 && !v5));
+    if role_client {
+        from_server_ok
+    } else if role_server {
+        from_client_ok
+    } else {
+        from_server_ok || from_client_ok
+    }
+}
+
+#[kani::proof]
+#[kani::unwind(3)]
+fn c17_can_receive_table() {
+    let t: u8 = kani::any();
+    let v5: bool = kani::any();
+    let v = v311_or_v5(v5);
+    let c = CC::new(v);
+    let s = SC::new(v);
+    let a = AC::new(v);
+    assert!(c.can_receive(t) == spec_remote_may_send(true, false, v5, t), "[C17] client role: receivable packet types per MQTT");
+    assert!(s.can_receive(t) == spec_remote_may_send(false, true, v5, t), "[C17] server role: receivable packet types per MQTT");
+    assert!(a.can_receive(t) == spec_remote_may_send(false, false, v5, t), "[C17] any role: receivable packet types per MQTT");
+    kani::cover!(t == 14 && !v5, "v3.1.1 DISCONNECT");
+    core::mem::forget(c);
+    core::mem::forget(s);
+    core::mem::forget(a);
+}
+
+// dispatch with a symbolic fixed-header byte (all type nibbles and flags, empty body) on a connected client
+fn dispatch_client(v5: bool) {
+    let mut c = fam_client_connected(v311_or_v5(v5));
+    let i: u16 = kani::any();
+    kani::assume(i != 0);
+    c.pid_man.register_id(i).unwrap();
+    c.pid_puback.insert(i);
+    let h: u8 = kani::any();
+    kani::assume((h >> 4) != 3); // PUBLISH carries its body in the Arc variant: separate harnesses
+    let pre = tm_of(&c);
+    let raw = pbh::verif_raw(h, &[]);
+    let ev = c.process_recv_packet(raw);
+    monitor(pre, &ev, &c);
+    let t = h >> 4;
+    if !spec_remote_may_send(true, false, v5, t) {
+        assert!(ev.len() == 1 && is_err(&sm(&ev, 0), MqttError::ProtocolError), "[C17] a packet the remote side may never send is a protocol error and nothing else");
+        assert!(c.status == ConnectionStatus::Connected && c.pid_man.is_used_id(i) && c.pid_puback.contains(&i), "[C17] rejected packet is not acted upon");
+    } else if t == 0 || (t == 15 && !v5) {
+        assert!(ev.len() == 1 && is_any_err(&sm(&ev, 0)), "[C17] reserved packet type is an error");
+    } else if t == 13 {
+        assert!(count(&ev, is_recv) == 1, "[C17] PINGRESP (empty body) is delivered to a client");
+    } else if t == 14 && v5 {
+        assert!(count(&ev, is_recv) == 1, "[C17] v5.0 DISCONNECT with empty body is delivered to a client");
+    } else {
+        // every other kind needs a body: the handler of that type ran and reported the malformed packet
+        assert!(count(&ev, is_recv) == 0 && count(&ev, is_any_err) == 1, "[C05] a received packet that is not delivered is reported through an error event");
+    }
+    assert!(c.pid_man.is_used_id(i), "[C06] an empty-bodied packet never releases an id");
+    core::mem::forget(ev);
+    core::mem::forget(c);
+}
+#[kani::proof]
+#[kani::unwind(7)]
+#[kani::stub(core::str::from_utf8, utf8_model)]
+fn st_dispatch_client_v311() {
+    dispatch_client(false)
+}
+#[kani::proof]
+#[kani::unwind(7)]
+#[kani::stub(core::str::from_utf8, utf8_model)]
+fn st_dispatch_client_v5() {
+    dispatch_client(true)
+}
+
+// dispatch on a connected server
+fn dispatch_server(v5: bool) {
+    let mut c = fam_server_connected(v311_or_v5(v5));
+    let h: u8 = kani::any();
+    kani::assume((h >> 4) != 3);
+    let pre = tm_of(&c);
+    let raw = pbh::verif_raw(h, &[]);
+    let ev = c.process_recv_packet(raw);
+    monitor(pre, &ev, &c);
+    let t = h >> 4;
+    if !spec_remote_may_send(false, true, v5, t) {
+        assert!(ev.len() == 1 && is_err(&sm(&ev, 0), MqttError::ProtocolError), "[C17] a packet the remote side may never send is a protocol error and nothing else");
+        assert!(c.status == ConnectionStatus::Connected, "[C17] rejected packet is not acted upon");
+    } else if t == 1 {
+        assert!(count(&ev, is_recv) == 0 && count(&ev, is_any_err) == 1, "[C17] CONNECT on an established connection is a protocol error");
+    } else if t == 12 || t == 14 {
+        assert!(count(&ev, is_recv) == 1, "[C17] PINGREQ / DISCONNECT with empty body are delivered to a server");
+    } else {
+        assert!(count(&ev, is_recv) == 0 && count(&ev, is_any_err) >= 1, "[C05] a received packet that is not delivered is reported through an error event");
+    }
+    core::mem::forget(ev);
+    core::mem::forget(c);
+}
+#[kani::proof]
+#[kani::unwind(7)]
+#[kani::stub(core::str::from_utf8, utf8_model)]
+fn st_dispatch_server_v311() {
+    dispatch_server(false)
+}
+#[kani::proof]
+#[kani::unwind(7)]
+#[kani::stub(core::str::from_utf8, utf8_model)]
+fn st_dispatch_server_v5() {
+    dispatch_server(true)
+}
+
+// undetermined server: the first packet decides the version
+#[kani::proof]
+#[kani::unwind(7)]
+#[kani::stub(core::str::from_utf8, utf8_model)]
+fn st_undetermined_first_packet() {
+    let mut c = SC::new(Version::Undetermined);
+    let h: u8 = kani::any();
+    kani::assume((h >> 4) != 3);
+    let lvl: u8 = kani::any();
+    let body: [u8; 7] = [0, 4, b'M', b'Q', b'T', b'T', lvl];
+    let short: bool = kani::any();
+    let raw = if short { pbh::verif_raw(h, &body[..6]) } else { pbh::verif_raw(h, &body[..]) };
+    let pre = tm_of(&c);
+    let ev = c.process_recv_packet(raw);
+    monitor(pre, &ev, &c);
+    let t = h >> 4;
+    assert!(count(&ev, is_recv) == 0, "[C17] a truncated or non-CONNECT first packet is never delivered");
+    if !spec_remote_may_send(false, true, true, t) {
+        // never receivable by a server in any version
+        assert!(ev.len() == 1 && is_any_err(&sm(&ev, 0)), "[C17] unreceivable first packet is an error");
+        assert!(c.protocol_version == Version::Undetermined, "[C17] version stays undetermined");
+    } else if t != 1 {
+        assert!(ev.len() == 1 && is_err(&sm(&ev, 0), MqttError::MalformedPacket) && c.protocol_version == Version::Undetermined, "[C17] any first packet other than CONNECT is rejected");
+    } else if short {
+        assert!(ev.len() == 1 && is_err(&sm(&ev, 0), MqttError::MalformedPacket) && c.protocol_version == Version::Undetermined, "[C17] truncated CONNECT is rejected before adoption");
+    } else if lvl == 4 {
+        assert!(c.protocol_version == Version::V3_1_1, "[C17] protocol level 4 adopts v3.1.1");
+    } else if lvl == 5 {
+        assert!(c.protocol_version == Version::V5_0, "[C17] protocol level 5 adopts v5.0");
+    } else {
+        assert!(ev.len() == 1 && is_err(&sm(&ev, 0), MqttError::UnsupportedProtocolVersion) && c.protocol_version == Version::Undetermined, "[C17] other protocol levels are rejected");
+    }
+    core::mem::forget(ev);
+    core::mem::forget(c);
+}
+
+
+pub(crate) mod c11 {
+    include!(concat!(env!("VERIF_HARNESS_DIR"), "/c11_h.rs"));
+}
+
